@@ -45,6 +45,7 @@ func main() {
 	explain := flag.String("explain", "", "re-run the obligation recorded in a violation file")
 	refactor := flag.String("refactor", "", "apply a behaviour-preserving transformation (rename-locals|shift-lines|swap-operands|invert-if|hoist-init|wrap-else) to the scratch copy given by -repo and exit")
 	mutGen := flag.Bool("mutgen", false, "print the systematic mutation sites of the functions the rules analyse (JSON) and exit")
+	forceWhole := flag.Bool("whole", false, "type-check the whole program from source (no export data is requested from the go command, so nothing is compiled into the build cache); used for every run on a scratch copy")
 	mutOnly := flag.Bool("mutants", false, "only run the mutant catalogue of the property and report checker sensitivity")
 	flag.Parse()
 	seed, _ := strconv.ParseInt(envOr("VERIF_SEED", "0"), 10, 64)
@@ -99,7 +100,7 @@ func main() {
 	}
 	start := time.Now()
 	before := repoStatus(*repo)
-	whole := *tier == "thorough"
+	whole := *tier == "thorough" || *forceWhole
 	for _, id := range ids {
 		if pr := registry[id]; pr != nil && pr.whole {
 			whole = true
